@@ -1,9 +1,9 @@
 (* Property C05, extension "source tie": the key filter of SaveKeyValue (IsAllowedToSaveUnderKey) and the
    contract-address test (IsSmartContractAddress) that the C05 theorems rely on, as REGENERATED from /repo's
    current Go sources on this very run (gen/Pure.v, module P, written by tools/srcgen/pure.go; None = panic).
-   Only statements, each closed by [exact] of a lemma of Helpers/PureTie.v, and their assumptions. *)
+   Only statements, each closed by [exact] of a lemma of Helpers/PureTie_*.v, and their assumptions. *)
 From Coq.Strings Require Import String.
-From EV Require Import Base.Bytes gen.Consts Base.GoSem gen.Pure Helpers.Helpers Ledger.Env Helpers.PureTie.
+From EV Require Import Base.Bytes gen.Consts Base.GoSem gen.Pure Helpers.Helpers Ledger.Env Helpers.PureTie_Base Helpers.PureTie_Addr.
 
 (* regenerated definition = hand model (Helpers/Helpers.v) *)
 Theorem C05_src_tie_IsAllowedToSaveUnderKey : forall k, P.IsAllowedToSaveUnderKey k = is_allowed_to_save_under_key k.
